@@ -7,6 +7,8 @@ TECH = "contract-based deductive verification (self-generated VCs over go/ssa, S
 COMMON_NOTE = ("trusted: go/packages+go/ssa front end, z3 5.1 / z3 4.8 / cvc5, the govc generator, the trusted library contracts in "
                "/verif/trusted/stdlib.contracts.go; integers are Go bit-vectors; slice lengths <= 2^40; pointer receivers non-nil; "
                "type-based separation of allocation classes (no unsafe); callee contracts marked `assigns internal` are ASSUMED frames; "
+               "obligations a unit generates but does not claim (evidence: obligations_generated_but_not_claimed, each with its reason) are assumed by the "
+               "later obligations of the same function, like a failed obligation would be; "
                "every assumption used in a run is listed in the evidence file")
 
 CLAIMS = {
